@@ -27,6 +27,8 @@ pub struct SimState {
     pub entropy_seed: u64,
     pub entropy_fail: BTreeSet<usize>,
     pub entropy_draws: Vec<EntropyDraw>,
+    /// recorded draws of an earlier (observe-arm) execution, served in order instead of anything else
+    pub entropy_script: std::collections::VecDeque<Vec<u8>>,
     // ---- hash seeds
     /// every map the library creates while an object is constructed draws mix(hash_base, counter)
     pub hash_base: u64,
@@ -79,6 +81,7 @@ impl SimState {
             entropy_seed: 0,
             entropy_fail: BTreeSet::new(),
             entropy_draws: vec![],
+            entropy_script: std::collections::VecDeque::new(),
             hash_base: 0,
             hash_ctr: 0,
             hash_seeds_served: 0,
@@ -120,7 +123,11 @@ impl SimEnv for Forwarder {
                 s.entropy_draws.push(EntropyDraw { site, real, served: vec![], failed: true });
                 return false;
             }
-            if s.entropy_mode == EntropyMode::Simulate {
+            if let Some(bytes) = s.entropy_script.pop_front() {
+                if bytes.len() == buf.len() {
+                    buf.copy_from_slice(&bytes);
+                }
+            } else if s.entropy_mode == EntropyMode::Simulate {
                 let mut r = Rng::new(crate::prng::mix(&[s.entropy_seed, idx as u64, 0xE17]));
                 let bytes = r.bytes(buf.len());
                 buf.copy_from_slice(&bytes);
@@ -168,6 +175,11 @@ pub fn set_entropy(mode: EntropyMode, seed: u64, fail: &[usize]) {
         s.entropy_fail = fail.iter().cloned().collect();
         s.entropy_draws.clear();
     });
+}
+
+/// The next draws are served from this recording (until it is exhausted or replaced).
+pub fn set_entropy_script(draws: Vec<Vec<u8>>) {
+    with(|s| s.entropy_script = draws.into_iter().collect());
 }
 
 pub fn take_entropy_draws() -> Vec<EntropyDraw> {
